@@ -120,6 +120,8 @@ func prgSampling(args []string) int {
 	res = append(res, samplingOut{"arguments", 20, prgx.SamplingArgs(*seed)})
 	v, ev = prgx.UintNSequences(*seed, 10*(*per))
 	res = append(res, samplingOut{"uintn-sequences", ev, v})
+	v, ev = prgx.SamplersOnTapes(*seed, 1+(*per)/10)
+	res = append(res, samplingOut{"samplers-on-tapes", ev, v})
 	// validity of every sampler on a grid of (n, m), many seeded generators
 	v, ev = prgx.ValidityGrid(*seed, *per)
 	res = append(res, samplingOut{"validity-grid", ev, v})
@@ -144,7 +146,7 @@ func prgSampling(args []string) int {
 	if prgx.MappingMismatches > 0 {
 		for i := range res {
 			for j := range res[i].Violations {
-				if p := res[i].Violations[j].Predicate; p == "UintNDefinition" || p == "UintNRejection" {
+				if p := res[i].Violations[j].Predicate; p == "UintNDefinition" || p == "UintNRejection" || res[i].ID == "samplers-on-tapes" {
 					res[i].Violations[j].Property = "NOTE"
 				}
 			}
